@@ -490,6 +490,16 @@ func (sa *Application) timeoutPlaceholderProcessing() {
 		sa.notifyRMAllocationReleased(toRelease, si.TerminationType_TIMEOUT, "releasing allocated placeholders on placeholder timeout")
 		// trigger the release of the pending placeholders: accounting has been done
 		sa.notifyRMAllocationReleased(pendingRelease, si.TerminationType_TIMEOUT, "releasing pending placeholders on placeholder timeout")
+		// A failing application is failed when the release of its last allocation is confirmed. Without any allocation
+		// no confirmation will ever arrive: the application would stay Failing, and scheduled, until the RM removes it.
+		if sa.IsFailing() && len(sa.allocations) == 0 {
+			if err := sa.HandleApplicationEvent(FailApplication); err != nil {
+				log.Log(log.SchedApplication).Warn("Application state not changed to Failed on placeholder timeout without allocations",
+					zap.String("AppID", sa.ApplicationID),
+					zap.String("currentState", sa.CurrentState()),
+					zap.Error(err))
+			}
+		}
 	}
 	sa.clearPlaceholderTimer()
 }
